@@ -428,7 +428,10 @@ func ParseRange(s string) (start, end int64, ok bool) {
 	}
 	p0, err0 := strconv.ParseInt(p0s, 10, 64)
 	p1, err1 := strconv.ParseInt(p1s, 10, 64)
-	if p1 > 0 {
+	// RangeString writes the empty range at a non-zero offset n as "n-(n-1)",
+	// for example "1-0", so the end is inclusive whenever the start is non-zero.
+	// Only "0-0" is left as it is: it stands for the empty range at offset zero.
+	if p1 > 0 || p0 > 0 {
 		p1++
 	}
 	return p0, p1, err0 == nil && err1 == nil
